@@ -323,7 +323,25 @@ func (m *Machine) unop(fr *frame, instr *ssa.UnOp, x Value) Value {
 		if p == nil {
 			m.rtPanic("invalid memory address or nil pointer dereference")
 		}
-		return load(deref(instr.X.Type()), p)
+		v := load(deref(instr.X.Type()), p)
+		// type-punned headers: *(*string)(unsafe.Pointer(&b)) and *(*[]byte)(unsafe.Pointer(&s))
+		switch vv := v.(type) {
+		case []Value:
+			if isStringType(deref(instr.X.Type())) {
+				if len(vv) == 0 {
+					return Str{}
+				}
+				return Str{A: vv[:len(vv):len(vv)]}
+			}
+		case Str:
+			if isByteSlice(deref(instr.X.Type())) {
+				if vv.A != nil {
+					return vv.A
+				}
+				return sliceOfStr(vv)
+			}
+		}
+		return v
 	case token.NOT:
 		return Not(x.(*Term))
 	case token.XOR:
@@ -384,7 +402,19 @@ func (m *Machine) slice(instr *ssa.Slice, x, lo, hi, max Value) Value {
 		if x == nil {
 			return []Value(nil)
 		}
-		return x[l:h:mx]
+		r := x[l:h:mx]
+		if int(h) > Len {
+			// re-slicing into the capacity: Go's spare capacity holds zero values (or what was there before);
+			// the engine's spare cells may never have been written
+			if st, ok := instr.X.Type().Underlying().(*types.Slice); ok {
+				for i := Len; i < int(h); i++ {
+					if x[:h][i] == nil {
+						x[:h][i] = zero(st.Elem())
+					}
+				}
+			}
+		}
+		return r
 	case *Value:
 		a := (*x).(Array)
 		return []Value(a)[l:h:mx]
